@@ -22,7 +22,7 @@ def run(r):
         behs = behs[:6000]
     r.extra['cases_replayed'] = len(behs)
     r.replay(None, behs, 'AntennaResponse', 'cases', parallel=16, factory=ResponseDriver)
-    if not r.actions_seen.get('Respond'):
+    if not r.actions_seen.get('Respond') or not r.actions_seen.get('Reorient'):
         raise tlc.TLCError('vacuity guard: no case replayed')
     r.assumptions += ['unit frequency response (values exact); linearity through a non-trivial frequency response is C05 material',
                       'rotations restricted to the 24 lattice rotations']
